@@ -51,7 +51,9 @@ def run(ctx):
                 "G-parse: every source of <= N lines over line kinds x {LF, CRLF, none, bare CR at EOF} with the events Run "
                 "predicts, replayed under the fragmentation family x {named, plain reader} x {HandleSet, plain Set, "
                 "DefaultStorage}; G-storage: every Add path to the depth bound (+ pairs of paths for Equal) with predicted "
-                "maps, replayed under 6 concretisations; T: random multi-line inputs with random fragmentation and random "
+                "maps, replayed under 6 concretisations (half of them through one reused, overwritten names buffer with "
+                "retained query results re-verified); G-readers: every split of short Add paths over 2..3 readers (one may "
+                "fail) through NewDefaultStorage, order-sensitive ones also with a slow first reader; T: random multi-line inputs with random fragmentation and random "
                 "storage histories validated by HostsTrace.tla / HostsStorageTrace.tla. "
                 "distinct_nontrivial = distinct non-empty sources + distinct non-empty Add paths replayed")
     ctx.assumptions += [
@@ -59,6 +61,12 @@ def run(ctx):
         "invalid lines may be reported in any order relative to Add calls; records must arrive in source order",
         "the class of an invalid line is read from the *LineError with errors.Is / errors.As only",
         "Equal: verdict required only where the doc comment is unambiguous (see HostsStorage!Equal3)",
+        "caller memory: records are also built in one reused names buffer that is overwritten after every Add; Add must "
+        "not write to rec / rec.Names (incl. spare capacity); slices returned by ByAddr / ByName are not documented as "
+        "copies, so only the elements already returned must never change (later Adds may append)",
+        "NewDefaultStorage(readers...) must equal feeding the readers' records in reader index order whatever the speed of "
+        "the readers (first reader slowed by sleeps, the others instant); a reader failing at its end must yield (nil, "
+        "error wrapping the reader's error, naming that reader's index when the message carries one)",
         "letter case: strings.ToLower / EqualFold agree on the names used (ASCII, Cyrillic, Greek, Latin-1)",
     ]
 
@@ -66,6 +74,11 @@ def run(ctx):
     write_cfg(d / "StMC_run.cfg", "Spec", st_consts('{"x", "y"}' if q else '{"x", "y", "z"}'),
               invariants=ST_INV, properties=ST_PROP)
     ctx.tlc(d, "HostsStorageMC", "StMC_run.cfg", label="storage-mc", timeout=1500)
+    # the caller's record memory: Add never writes the record, overwriting the buffer afterwards changes no answer
+    write_cfg(d / "StMem_run.cfg", "MSpec", st_consts('{"x", "y"}', "MCShapes8", MaxSteps=2 if q else 3),
+              invariants=["FunctionOfHistory", "NoDuplicates", "NoEmptyEntries"],
+              properties=["AddLeavesRecord", "ScribbleInvisible"])
+    ctx.tlc(d, "HostsStorageMem", "StMem_run.cfg", label="storage-mem-mc", timeout=1500)
     write_cfg(d / "RdMC_run.cfg", "Spec", {"Kinds": KINDS8, "MaxLines": 2, "MaxEmpty": 1 if q else 3},
               invariants=["PrefixOfRun", "CompleteAtEnd", "OncePerLine", "LineCount"], properties=["Terminates"],
               deadlock=True)
@@ -94,6 +107,25 @@ def run(ctx):
     s1 = ctx.collect(ctx.scratch / "st.res")
     if s1["vectors"] != nst:
         raise CheckerError("replayed %d of %d storage vectors" % (s1["vectors"], nst))
+
+    # ---- 2b. NewDefaultStorage(readers...): all splits of short Add paths over 2..3 readers, one reader failing
+    write_cfg(d / "StReaders_run.cfg", "RSpec",
+              st_consts('{"x", "y"}', "MCShapesR", MaxReaders=3, MaxRecs=3 if q else 4),
+              invariants=["Emit", "SplitIrrelevant"])
+    ctx.tlc(d, "HostsReadersGen", "StReaders_run.cfg", label="readers-gen", timeout=1800)
+    nrd = count_lines(d / "c08_readers_vectors.ndjson")
+    ctx.vh(["c08", "replay-readers", d / "c08_readers_vectors.ndjson", ctx.scratch / "rd.res"], timeout=1800)
+    s5 = ctx.collect(ctx.scratch / "rd.res")
+    if s5["vectors"] != nrd:
+        raise CheckerError("replayed %d of %d reader vectors" % (s5["vectors"], nrd))
+    if s5["slow_first_reader_runs"] == 0 or s5["failing_reader_runs"] == 0:
+        raise CheckerError("no slow-first-reader / failing-reader runs: %s" % s5)
+    ctx.evaluations += s5["replayed"]
+    ctx.distinct += s5["distinct_nontrivial"]
+    ctx.traces += s5["vectors"]
+    ctx.extra["reader_sets_enumerated"] = nrd
+    ctx.extra["slow_first_reader_runs"] = s5["slow_first_reader_runs"]
+    ctx.extra["failing_reader_runs"] = s5["failing_reader_runs"]
 
     # ---- 3. parse: all sources, replayed under the fragmentation family
     runs = [(KINDS8, 3), (KINDS4, 4)] if q else [(KINDS8, 3), (KINDS6, 4), (KINDS3, 5)]
